@@ -627,6 +627,58 @@ func runC30(p *Prog, r *Result) {
 		}
 	}
 
+	// ---- R30j: Reset does not leave jobs of the history running
+	// The entries of bgProcs stand for goroutines that keep running statements of an earlier program on copies that
+	// share the runner's writers. A Reset that forgets them without waiting (a receive from each entry's done channel)
+	// lets their output appear in the output of the program run next.
+	r.Rule("R30j", "Reset waits for (receives from the done channel of) every background job before it forgets the list", 1)
+	if bgF := fieldByName["bgProcs"]; bgF != nil {
+		drops, waits := false, false
+		ast.Inspect(resetFD.Body, func(n ast.Node) bool {
+			switch x := n.(type) {
+			case *ast.AssignStmt:
+				for _, l := range x.Lhs {
+					if selectorField(info, l) == bgF {
+						drops = true
+					}
+				}
+			case *ast.CallExpr:
+				if isBuiltinCall(info, x, "clear") && len(x.Args) == 1 && selectorField(info, x.Args[0]) == bgF {
+					drops = true
+				}
+			case *ast.UnaryExpr:
+				if x.Op == token.ARROW {
+					if sel, ok := ast.Unparen(x.X).(*ast.SelectorExpr); ok && sel.Sel.Name == "done" {
+						waits = true
+					}
+				}
+			case *ast.CompositeLit:
+				if namedOf(info.TypeOf(x)) == runnerT {
+					hasKey := false
+					for _, el := range x.Elts {
+						if kv, ok := el.(*ast.KeyValueExpr); ok {
+							if k, ok := kv.Key.(*ast.Ident); ok && k.Name == "bgProcs" {
+								hasKey = true
+							}
+						}
+					}
+					if !hasKey {
+						drops = true // the literal that replaces *r leaves the field out: the list is forgotten
+					}
+				}
+			}
+			return true
+		})
+		if drops {
+			r.Check(waits, "R30j", "interp.(Runner).Reset#forgets bgProcs only after waiting for them", resetFD.Pos(), "receives from each job's done channel first",
+				"Reset forgets the background jobs of the programs run so far without waiting for them: a job still running writes into the output of the program run after Reset, which a new Runner would not show")
+		} else {
+			r.OK("R30j", "interp.(Runner).Reset#forgets bgProcs only after waiting for them", resetFD.Pos(), "Reset does not drop the list")
+		}
+	} else {
+		r.Undecided("R30j", "interp.Runner.bgProcs", token.NoPos, "the Runner has no bgProcs field: background jobs are tracked somewhere this rule does not know")
+	}
+
 	// ---- R30h: Run does not reset what a statement can leave behind
 	// A whole-file run goes from one top-level statement to the next without passing through Run. A field that
 	// statements write (break/continue counts, the function depth, traps, …) and that Run stores into around the
@@ -645,6 +697,7 @@ func runC30(p *Prog, r *Result) {
 		}
 		return true
 	})
+	var refG30 *refGraph
 	seenH := map[string]int{}
 	inspectNoLit(runFD.Body, func(n ast.Node) bool {
 		as, ok := n.(*ast.AssignStmt)
@@ -672,7 +725,45 @@ func runC30(p *Prog, r *Result) {
 			if seenH[key] > 1 {
 				key += fmt.Sprintf("#%d", seenH[key])
 			}
+			// a field given a value from the node only in the *syntax.File clause, and read by code that statements run,
+			// makes a statement see something else when it is run on its own
+			inFileClause := false
+			ast.Inspect(runFD.Body, func(n ast.Node) bool {
+				cc, ok := n.(*ast.CaseClause)
+				if !ok || !(cc.Pos() <= as.Pos() && as.End() <= cc.End()) {
+					return true
+				}
+				for _, e := range cc.List {
+					if pt, ok := info.TypeOf(e).(*types.Pointer); ok && typeName(pt.Elem()) == "File" {
+						inFileClause = true
+					}
+				}
+				return true
+			})
+			readByStatements := ""
+			if inFileClause {
+				if stmtFn := lookupFunc(pkg, "Runner.stmt"); stmtFn != nil {
+					if refG30 == nil {
+						refG30 = buildRefGraph(p)
+					}
+					g := refG30
+					reach := g.reachable(stmtFn)
+					for fo, fd := range g.decl {
+						if !reach[fo] || fd == runFD || fd.Body == nil || g.pkgOf[fo] != pkg {
+							continue
+						}
+						ast.Inspect(fd.Body, func(n ast.Node) bool {
+							if sel, ok := n.(*ast.SelectorExpr); ok && selectorField(info, sel) == fv && readByStatements == "" {
+								readByStatements = funcKey("interp", fd)
+							}
+							return true
+						})
+					}
+				}
+			}
 			switch {
+			case inFileClause && readByStatements != "" && fd0(runFD, info, fv):
+				r.Bad("R30h", key, as.Pos(), fmt.Sprintf("Run gives %s a value from the node only when the node is a whole file, and code that statements run reads it (%s): the same statement sees another value when it is run on its own", fv.Name(), readByStatements))
 			case carried == "":
 				r.OK("R30h", key, as.Pos(), "no code a statement runs writes this field: it is per-Run bookkeeping")
 			case stmtAssigns[exprString(l)+" = "+rhs]:
@@ -915,3 +1006,7 @@ var c30Controls = []Control{
 }
 
 var _ *packages.Package
+
+
+// fd0 is a placeholder for further conditions on the whole-file-only store (none today).
+func fd0(_ *ast.FuncDecl, _ *types.Info, _ *types.Var) bool { return true }
